@@ -48,6 +48,7 @@ MUTANTS = {
     # the defect of the originally pinned tree, re-introduced
     "c02_counters_16bit": ("C02", "asmerr.c", "LongWord             ErrorCount, WarnCount;", "Word                 ErrorCount, WarnCount;", 1,
                            [("asmerr.h", "extern LongWord ErrorCount, WarnCount;", "extern Word ErrorCount, WarnCount;")]),
+    "c02_jmperrors_not_reset": ("C02", "asmerr.c", "    JmpErrors  = 0;\n", ""),
     # ---- C18 -------------------------------------------------------------------------------------------
     "c18_relaxed_leaks": ("C18", "as.c", "    SetFlag(&RelaxedMode, RelaxedName, DefRelaxedMode);\n    SetIntConstRelaxedMode(DefRelaxedMode);",
                           "    { static int b218_once; if (b218_once) SetFlag(&RelaxedMode, RelaxedName, RelaxedMode); else SetFlag(&RelaxedMode, RelaxedName, DefRelaxedMode); b218_once = 1; }"),
@@ -82,8 +83,7 @@ MUTANTS = {
     #  EmergencyStop deletes the code file)
     "c17_macro_header_stale_errno": ("C17", "as.c", "        errno = 0;\n        fprintf(MacroFile, \"%s MACRO %s\\n\",",
                                      "        fprintf(MacroFile, \"%s MACRO %s\\n\","),
-    "c17_macro_body_stale_errno": ("C17", "as.c", "        errno = 0;\n        fprintf(MacroFile, \"%s\\n\", OneLine.p_str);",
-                                   "        fprintf(MacroFile, \"%s\\n\", OneLine.p_str);"),
+    # (dropping the reset before the macro BODY lines is an equivalent mutant: the header write just before has reset it)
     # (the coordinator's seeded miss: -h changes the exponent letter the packed-decimal converter searches for)
     "c17_h_breaks_packed_decimal": ("C17", "motpseudo.c", "    pSplit = strchr(s, HexStartCharacter + ('e' - 'a'));", "    pSplit = strchr(s, 'E');"),
     "c17_s_sets_relaxed": ("C17", "as.c", "    MakeSectionList = !Negate;\n    return CMDOK;", "    MakeSectionList = !Negate;\n    DefRelaxedMode  = !Negate;\n    return CMDOK;"),
